@@ -413,6 +413,18 @@ pub fn run_check(engine: &dyn Engine, opts: &Options) -> i32 {
             }
         }
     }
+    if samples.is_empty() {
+        // jobs stopped early (violations) before recording a per-run sample: describe a job instead
+        if let Some((job, r)) = results.iter().next() {
+            samples.push(
+                J::obj()
+                    .set("job", J::u(*job))
+                    .set("evaluations", J::u(r.evaluations))
+                    .set("violations_in_job", J::Arr(r.violations.iter().take(2).map(|v| J::obj().set("clause", J::str(&v.clause)).set("what", J::str(&v.what))).collect()))
+                    .set("note", J::str("no per-run sample was recorded because the jobs stopped early")),
+            );
+        }
+    }
     if (results.len() as u64) < njobs && harness_errors.is_empty() && violations.is_empty() {
         harness_errors.push(format!("only {} of {} jobs produced a result", results.len(), njobs));
     }
